@@ -109,6 +109,18 @@ def run_shard(desc):
     elif kind == "special":
         for s in SPECIALS:
             items.append(("special", s, None))
+    elif kind == "long":
+        for _ in range(n):
+            if rnd.random() < 0.5:
+                toks = gen.long_chain_tokens(rnd, rnd.choice([64, 65, 128, 129, 130, 200, 300]))
+                try:
+                    t = ref.rparse(ref.rtok(" ".join(toks)))
+                except (ref.Abstain, ref.ParseError, ref.LexError):
+                    continue
+                items.append(("long", " ".join(toks), t))
+            else:
+                t = gen.deep_nest(rnd, rnd.choice([64, 65, 127, 128, 129, 150]))
+                items.append(("long", ref.Renderer(rnd=rnd, extra_parens=0.05).render(t), t))
     part = {"evaluations": 0, "classes": set(), "violations": [], "samples": [], "abstained": 0, "inconclusive": [], "counts": {"wl_" + kind: 0, "c02_mismatch_skipped": 0, "rejected": 0}}
     wd = common.workdir(PROP)
     if kind == "hist":
@@ -262,6 +274,8 @@ def run(rep, tier):
     per = 2500 if tier == "quick" else 25000
     for i in range(ntree // per):
         shards.append(("tree", i, 0, per, "release" if i % 2 else "verifdbg"))
+    for i in range(16):
+        shards.append(("long", i, 0, 20 if tier == "quick" else 500, "release" if i % 2 else "verifdbg"))
     nh = 64 if tier == "quick" else 1600
     for i in range(16):
         shards.append(("hist", i, 0, nh // 16, "release" if i % 2 else "verifdbg"))
